@@ -23,7 +23,8 @@ static const char* RULES =
     "rule loop2 { condition: for any i in (0..2) : (for any j in (0..2) : (console.log(\"ij=\", i * 3 + j) and i + j == 4)) }\n"
     "rule ent { condition: math.entropy(0, filesize) > 2.0 }\n"
     "rule md5len { condition: hash.md5(0, filesize) != \"\" and tests.constants.one == 1 }\n"
-    "rule fs { condition: filesize > 12 }\n";
+    "rule fs { condition: filesize > 12 }\n"
+    "rule md5v { condition: console.log(\"md5=\", hash.md5(0, filesize)) and console.log(\"sha=\", hash.sha1(1, 4)) }\n";
 
 static const char* BUFS[4] = {"xx abcd ab abbbcd", "abababab-no-d", "abcdabcdabcd abcd", "zz"};
 static const char* EXTS[4] = {"v1", "w", "v2", "v1"};
@@ -31,6 +32,7 @@ static const char* EXTS[4] = {"v1", "w", "v2", "v1"};
 typedef struct { OB trace; int rc; int nmsg; int nrule; int abort_at; int error_at; } TCTX;   /* abort_at / error_at: index of the RULE message answered with abort / error */
 static TCTX tc[YV_MAXT], solo[YV_MAXT];
 static int nthreads, rules_level, scenario_abort;
+static int bufsel[YV_MAXT];   /* which buffer a thread scans ("same-size": two different buffers of equal length, so that per-scan caches keyed by offset and length collide) */
 static OB viol;
 static void* H0;
 
@@ -67,7 +69,7 @@ static int cb(YR_SCAN_CONTEXT* ctx, int msg, void* data, void* ud) {
 
 static void body(int t, TCTX* c) {
   YR_SCANNER* sc = NULL;
-  const char* buf = BUFS[t % 4];
+  const char* buf = BUFS[bufsel[t]];
   if (rules_level && t == 0) {
     yv_point("api:rules_scan");
     c->rc = yr_rules_scan_mem(rules, (const uint8_t*) buf, strlen(buf), 0, cb, c, 0);
@@ -115,7 +117,9 @@ static void invariants(const char* label) {
 static void setup_scenario(const char* name) {
   nthreads = 2; rules_level = 0; scenario_abort = 0;
   for (int t = 0; t < YV_MAXT; t++) { memset(&tc[t], 0, sizeof tc[t]); memset(&solo[t], 0, sizeof solo[t]); tc[t].abort_at = tc[t].error_at = solo[t].abort_at = solo[t].error_at = -1; }
+  for (int t = 0; t < YV_MAXT; t++) bufsel[t] = t % 4;
   if (!strcmp(name, "two")) { }
+  else if (!strcmp(name, "same-size")) { bufsel[1] = 2; }
   else if (!strcmp(name, "three")) nthreads = 3;
   else if (!strcmp(name, "abort")) { tc[1].abort_at = solo[1].abort_at = 2; }
   else if (!strcmp(name, "error")) { tc[0].error_at = solo[0].error_at = 1; }
